@@ -809,4 +809,61 @@ example : getIfOnlyUnicodeCategories (srcConsts 0 100 2) (.leaf { cats := [(1, f
     getIfOnlyUnicodeCategories (srcConsts 0 100 2) (.leaf { cats := [(0, false)] }) = none ∧
     getIfOnlyUnicodeCategories (srcConsts 0 100 2) (.leaf { cats := [(1, false), (2, true)] }) = none := by decide
 
+/-- **The serialisation round trip: `NewCharSetRuntime(Hash(c))` is `c`** — structurally (every level's
+`negate`, `anything`, ranges and categories; as `Copy()` it carries neither the `building` mark nor the bitmap)
+and therefore with the same membership — for classes whose range endpoints are Unicode scalar values (the hash
+writes them with `WriteRune`, i.e. as UTF-8), whose category names are at most 127 bytes long and not empty
+when negated (the `int8` length carries `Negate` in its sign), with fewer than 2³¹ ranges and categories.
+`nameOf`/`idOf` spell category names out and back; `fuel` is the recursion budget of the model (the driver
+uses the length of the hash, which always suffices: `hash_length`).  The writer keys its set table by this
+string and the code generator reads classes back from it. -/
+theorem hash_roundtrip (cat : Nat → Nat → Bool) (nameOf : Nat → List Nat) (idOf : List Nat → Nat) (c : Class)
+    (hok : Class.HashOk nameOf idOf c) :
+    newCharSetRuntime idOf (Class.hash nameOf c).length (Class.hash nameOf c) = c.copy ∧
+    ∀ r, memAlg cat (newCharSetRuntime idOf (Class.hash nameOf c).length (Class.hash nameOf c)) r = memAlg cat c r := by
+  have h := newCharSetRuntime_hash nameOf idOf c _ hok (hash_length nameOf c)
+  exact ⟨h, fun r => by rw [h, memAlg_copy]⟩
+
+/-- `[^a-cé-[\p{7}x]]` with the name of category 7 spelled "Lu": the hash and the way back -/
+example :
+    let nameOf : Nat → List Nat := fun _ => [76, 117]
+    let idOf : List Nat → Nat := fun _ => 7
+    let c : Class := .minus { ranges := [(97, 99), (233, 233)], neg := true } (.leaf { ranges := [(120, 120)], cats := [(7, true)] })
+    Class.HashOk nameOf idOf c ∧
+    Class.hash nameOf c = [1, 2, 0, 0, 0, 0, 0, 0, 0, 97, 99, 195, 169, 195, 169, 0, 1, 0, 0, 0, 1, 0, 0, 0, 120, 120, 254, 76, 117] ∧
+    newCharSetRuntime idOf 29 (Class.hash nameOf c) = c := by
+  refine ⟨⟨⟨by decide, by decide, ?_, by simp⟩, ⟨by decide, by decide, ?_, ?_⟩⟩, by decide, by decide⟩
+  · intro r hr; simp at hr; rcases hr with rfl | rfl <;> simp [Scalar, maxRune]
+  · intro r hr; simp at hr; subst hr; simp [Scalar, maxRune]
+  · intro ct hct; simp at hct; subst hct; simp [CatOk]
+
+/-- **The scalar-value hypothesis is needed (D48): a surrogate endpoint does not survive the hash.**
+`[\uD800]` and `[\uD801]` have the same hash (both endpoints are written as U+FFFD), the round trip yields
+`[�]`, and membership of U+D800 is lost. -/
+theorem hash_surrogate_counterexample :
+    let nameOf : Nat → List Nat := fun _ => []
+    let idOf : List Nat → Nat := fun _ => 0
+    let c1 : Class := .leaf { ranges := [(0xD800, 0xD800)] }
+    let c2 : Class := .leaf { ranges := [(0xD801, 0xD801)] }
+    Class.hash nameOf c1 = Class.hash nameOf c2 ∧
+    newCharSetRuntime idOf 20 (Class.hash nameOf c1) = .leaf { ranges := [(0xFFFD, 0xFFFD)] } ∧
+    memAlg toyCat c1 0xD800 = true ∧ memAlg toyCat (newCharSetRuntime idOf 20 (Class.hash nameOf c1)) 0xD800 = false := by
+  decide
+
+/-- **`Copy()` keeps membership and every query answer that depends on the structure** (`negate`, `anything`,
+ranges, categories at every level): the copy `Equals` the original.  (That the copy shares no storage with
+the original — what the callers want it for — is not expressible in this value-level model; the slices are
+rebuilt with `append(nil…, …)` and the subtractor is copied recursively, leg Kq compares the dumps.) -/
+theorem copy_spec (cat : Nat → Nat → Bool) (c : Class) :
+    c.copy.equals c = true ∧ ∀ r, memAlg cat c.copy r = memAlg cat c r := by
+  refine ⟨?_, fun r => memAlg_copy cat c r⟩
+  induction c with
+  | leaf f => simp [Class.copy, Flat.copy, Class.equals, Class.equalsGo, Flat.eqFields]
+  | minus f s ih =>
+    simp only [Class.equals] at ih
+    simp [Class.copy, Flat.copy, Class.equals, Class.equalsGo, Flat.eqFields, ih]
+
+example : (Class.minus { ranges := [(97, 99)], building := true, ascii := some (1, 2) } (.leaf { cats := [(1, true)] })).copy =
+    .minus { ranges := [(97, 99)] } (.leaf { cats := [(1, true)] }) := by decide
+
 end RegexVerif.Props.C16
